@@ -31,7 +31,7 @@ NOT_ASSERTED = []
 
 ROUTES = ['builder', 'ctor_tvm', 'ctor_plain', 'ctor_plain_le', 'boc_bytes', 'boc_hex', 'boc_b64', 'copy', 'parse_to_cell', 'slice_from_cell',
           'to_builder', 'builder_to_slice', 'builder_from_boc', 'slice_from_boc', 'boc_options', 'builder_reused', 'slice_reused', 'derived_mutated',
-          'subclass_boc', 'subclass_ctor', 'subclass_copy', 'slice_consumed']
+          'subclass_boc', 'subclass_ctor', 'subclass_copy', 'slice_consumed', 'rehashed']
 
 
 def BOUNDS(tier):
@@ -195,6 +195,15 @@ def _routes(rc, refs_lib):
             s.load_bits(3)
         return s.to_cell()
 
+    def rehashed():
+        # the public hashing entry points called again on a finished cell: the cell is the same cell afterwards
+        c = base().end_cell()
+        c.calculate_hashes()
+        c.calculate_representation_hash()
+        c.calculate_hashes()
+        return c
+
+    yield 'rehashed', rehashed
     yield 'slice_consumed', slice_consumed
     yield 'derived_mutated', derived_mutated
     yield 'builder_reused', builder_reused
